@@ -1,3 +1,4 @@
+import GV.Model.ThresholdCert
 /-
   Rigorous-by-construction (but NOT machine-proved) interval evaluation of
       floor( U · (1 − (a/b)^(n/m)) )      0 < a < b, 0 < n ≤ m
@@ -94,14 +95,61 @@ def thresholdIv (P a b n m U : Nat) : Nat × Nat :=
   let thi := min (U - 1) (U - min U vloC)
   (tlo, thi)
 
-/-- escalate the precision until the enclosure is a single integer (or give up) -/
-def threshold (a b n m U : Nat) : Nat × Nat := Id.run do
+/-- escalate the precision until the enclosure is a single integer (or give up);
+    also returns the precision reached -/
+def thresholdP (a b n m U : Nat) : Nat × Nat × Nat := Id.run do
   let mut P := Nat.log2 U + 128
   let mut r := thresholdIv P a b n m U
   for _ in [0:5] do
     if r.1 = r.2 then break
     P := 2 * P
     r := thresholdIv P a b n m U
-  return r
+  return (r.1, r.2, P)
+
+def threshold (a b n m U : Nat) : Nat × Nat :=
+  let r := thresholdP a b n m U
+  (r.1, r.2.1)
+
+/-! ### search for a certificate of `GV.Model.ThresholdCert.check` (unverified; the checker decides) -/
+
+/-- smallest N ≥ 1 with N! ≥ 2^bits -/
+def termsFor (bits : Nat) : Nat := Id.run do
+  let mut f := 1
+  let mut k := 1
+  for _ in [0:bits + 2] do
+    if f ≥ 2 ^ bits then break
+    k := k + 1
+    f := f * k
+  return k
+
+def ratOf (x P : Nat) : Rat := (x : Rat) / (2 ^ P : Nat)
+
+/-- certificate at precision P: bounds on ln 2 and ln r widened by a few units in the last place,
+    so that the Taylor remainders of the checker fit in the slack -/
+def mkCert (P a b n m : Nat) : GV.Model.ThresholdCert.Cert :=
+  let l2 := ln2 P
+  let e := Nat.log2 (b / a)
+  let a' := a * 2 ^ e
+  let z := ofRat P (b - a') (b + a')
+  let lr := mulNat 2 (atanh P z)
+  let l2lo := ratOf (l2.lo - 4) P
+  let l2hi := ratOf (l2.hi + 4) P
+  let rlo := ratOf (lr.lo - 4) P
+  let rhi := ratOf (lr.hi + 4) P
+  let σ : Rat := (n : Rat) / m
+  let ylo := σ * (e * l2lo + rlo)
+  let j := (ylo / l2hi).floor.toNat
+  { e := e, j := j, N := termsFor (P + 16), l2lo := l2lo, l2hi := l2hi, rlo := rlo, rhi := rhi }
+
+/-- a threshold together with a certificate accepted by the proved checker, if one is found -/
+def certify (a b n m U : Nat) : Option (Nat × GV.Model.ThresholdCert.Cert) := Id.run do
+  let r := thresholdP a b n m U
+  if r.1 ≠ r.2.1 then return none
+  let mut P := r.2.2 + 32
+  for _ in [0:2] do
+    let c := mkCert P a b n m
+    if GV.Model.ThresholdCert.check a b n m U r.1 c then return some (r.1, c)
+    P := 2 * P
+  return none
 
 end GV.Lib.IntervalPow
